@@ -334,6 +334,9 @@ pub(crate) fn parse_enum(e: &ItemEnum, target_os: &[String]) -> Result<RustItem,
         .collect();
 
     let serde_rename_all = serde_rename_all(&e.attrs);
+    // serde's enum-level default for the fields of struct variants.
+    let serde_rename_all_fields =
+        get_name_value_meta_items(&e.attrs, "rename_all_fields", SERDE).next();
 
     // TODO: we shouldn't lie and return a type alias when parsing an enum. this
     // is a temporary hack
@@ -362,7 +365,7 @@ pub(crate) fn parse_enum(e: &ItemEnum, target_os: &[String]) -> Result<RustItem,
         // Filter out variants we've been told to skip
         .filter(|v| !is_skipped(&v.attrs, target_os))
         .inspect(|v| debug!("\t\taccepted variant {}", v.ident))
-        .map(|v| parse_enum_variant(v, &serde_rename_all, target_os))
+        .map(|v| parse_enum_variant(v, &serde_rename_all, &serde_rename_all_fields, target_os))
         .collect::<Result<Vec<_>, _>>()?;
 
     // Check if the enum references itself recursively in any of its variants
@@ -425,6 +428,7 @@ pub(crate) fn parse_enum(e: &ItemEnum, target_os: &[String]) -> Result<RustItem,
 fn parse_enum_variant(
     v: &syn::Variant,
     enum_serde_rename_all: &Option<String>,
+    enum_serde_rename_all_fields: &Option<String>,
     target_os: &[String],
 ) -> Result<RustEnumVariant, ParseError> {
     let shared = RustEnumVariantShared {
@@ -437,7 +441,8 @@ fn parse_enum_variant(
     //
     // The value of the attribute for the enum overall does not apply to enum
     // variant fields.
-    let variant_serde_rename_all = serde_rename_all(&v.attrs);
+    let variant_serde_rename_all =
+        serde_rename_all(&v.attrs).or_else(|| enum_serde_rename_all_fields.clone());
 
     match &v.fields {
         syn::Fields::Unit => Ok(RustEnumVariant::Unit(shared)),
